@@ -24,9 +24,10 @@
     an empty iterator) - this is the "Layer 2" assumption, validated on every run against the
     real macro compiled by rustc (tools/props/c10.py).
 
-    Generic parameters and where-clauses are not modelled: they decide bounds, not the
-    expressions (the one bound the property's mechanism list names - [__RhsT: Copy] iff more than
-    one field, utils.rs:227 - is kept as [im_scalar]). *)
+    The generic parameters and the where-clause of the generated impl ([__RhsT], its [Copy]
+    bound iff more than one field, one predicate per distinct field type, the extra bound on every
+    type parameter) are modelled by [derive_header]; they decide bounds, not the expressions, so
+    they are a separate argument. *)
 From Coq Require Import String Ascii.
 From Verif Require Import Base.Chars.
 Import ListNotations.
@@ -606,6 +607,121 @@ Definition derive (lower : str -> str) (t : trait) (inp : input) : outcome impl 
   | XNotLike => not_like_expand lower inp (trait_name t)
   | XSumLike => sum_like_expand lower inp (trait_name t)
   end.
+
+(* ------------------------------------------------------------------ the impl header: generic parameters and where-clause
+   (utils.rs:138-237 and the callers in the six expanders).  The expressions do not depend on the
+   generics, so they are a separate argument: [derive] gives the body, [derive_header] the
+   [impl<...> ... where ...] around it. *)
+
+Inductive gparam :=
+| GLifetime (text : str)                     (* ['a], ['a: 'b] *)
+| GType (n : str) (bounds : list str)        (* [T], [T: Clone + Copy] (bounds kept as opaque texts) *)
+| GConst (text : str).                       (* [const N: usize] *)
+Record generics := { g_params : list gparam; g_where : list str }.
+
+Inductive bound :=
+| BOrig (s : str)
+| BOpOutput (tr : str) (t : str)             (* [derive_more::core::ops::tr<Output = t>] *)
+| BOp (tr : str)                             (* [derive_more::core::ops::tr] *)
+| BWith (tr : str).                          (* [derive_more::with_trait::tr] *)
+
+Inductive oparam :=
+| OLifetime (text : str)
+| OType (n : str) (bs : list bound)
+| OConst (text : str)
+| ORhs (copy : bool).                        (* [__RhsT] / [__RhsT: derive_more::core::marker::Copy] *)
+
+Inductive wpred :=
+| WOrig (s : str)
+| WScalarOut (ty : N) (tr : str)             (* [ty: derive_more::with_trait::tr<__RhsT, Output = ty>] *)
+| WScalar (ty : N) (tr : str)                (* [ty: derive_more::with_trait::tr<__RhsT>] *)
+| WSelfOp (tr : str).                        (* [S<..>: derive_more::core::ops::tr<Output = S<..>>] *)
+
+Record header := { h_params : list oparam; h_where : list wpred }.
+
+Definition orig_param (p : gparam) : oparam :=
+  match p with
+  | GLifetime t => OLifetime t
+  | GType n bs => OType n (map BOrig bs)
+  | GConst t => OConst t
+  end.
+
+(** push one more bound on every type parameter; [b] may mention the parameter's name *)
+Definition push_bound (b : str -> bound) (p : oparam) : oparam :=
+  match p with
+  | OType n bs => OType n (bs ++ [b n])
+  | p => p
+  end.
+
+(** utils.rs:138-152 *)
+Definition add_extra_type_param_bound_op_output (ps : list oparam) (tr : str) : list oparam :=
+  map (push_bound (fun n => BOpOutput tr n)) ps.
+
+(** utils.rs:161-172 (and 154-159 with [bound = core::ops::tr]) *)
+Definition add_extra_ty_param_bound (ps : list oparam) (b : bound) : list oparam :=
+  map (push_bound (fun _ => b)) ps.
+
+(** utils.rs:206-218: the new predicates come first, the declaration's own follow *)
+Definition add_extra_where_clauses (old : list wpred) (new : list wpred) : list wpred := new ++ old.
+
+Definition is_lifetime (p : oparam) : bool := match p with OLifetime _ => true | _ => false end.
+Definition is_type_param (p : oparam) : bool := match p with OType _ _ => true | _ => false end.
+Definition is_const_param (p : oparam) : bool := match p with OConst _ => true | _ => false end.
+
+(** utils.rs:185-204: lifetimes, type parameters, the new parameter, const parameters *)
+Definition add_extra_generic_type_param (ps : list oparam) (p : oparam) : list oparam :=
+  filter is_lifetime ps ++ filter is_type_param ps ++ [p] ++ filter is_const_param ps.
+
+(** the distinct field types, as the [HashSet<&Type>] of mul_like.rs:39 / mul_assign_like.rs:38
+    holds them (its iteration order is the hasher's; first-occurrence order here, compared as a
+    set by the tie) *)
+Fixpoint dedup (l : list N) : list N :=
+  match l with
+  | [] => []
+  | x :: l' => x :: filter (fun y => negb (N.eqb x y)) (dedup l')
+  end.
+
+(** utils.rs:220-237 *)
+Definition add_where_clauses_for_new_ident (g : generics) (nfields : nat) (new : list wpred) : header :=
+  {| h_params := add_extra_generic_type_param (map orig_param (g_params g)) (ORhs (Nat.ltb 1 nfields));
+     h_where := add_extra_where_clauses (map WOrig (g_where g)) new |}.
+
+Definition has_type_param (g : generics) : bool :=
+  existsb (fun p => match p with GType _ _ => true | _ => false end) (g_params g).
+
+(** the header each expander puts around the body [im] it produced:
+      add_like.rs:18-19 / not_like.rs:15-16   every type parameter gets [core::ops::Tr<Output = T>]
+      add_assign_like.rs:14-15                every type parameter gets [core::ops::Tr]
+      mul_like.rs:39-55, mul_assign_like.rs:38-52, mul_helpers.rs:26-33
+                                              [__RhsT], one predicate per distinct field type
+      sum_like.rs:23-34                       nothing without type parameters; otherwise every type
+                                              parameter gets [with_trait::Sum] and the type itself
+                                              must implement the operator *)
+Definition header_of (t : trait) (g : generics) (inp : input) (im : impl) : header :=
+  let ps := map orig_param (g_params g) in
+  let plain w := {| h_params := w; h_where := map WOrig (g_where g) |} in
+  let field_tys := match i_data inp with DStruct fs => map f_ty (field_list fs) | _ => [] end in
+  match expander_of t, im_scalar im with
+  | XAddLike, _ | XNotLike, _ | XMulLike, None =>
+      plain (add_extra_type_param_bound_op_output ps (im_trait im))
+  | XAddAssignLike, _ | XMulAssignLike, None =>
+      plain (add_extra_ty_param_bound ps (BOp (im_trait im)))
+  | XMulLike, Some _ =>
+      add_where_clauses_for_new_ident g (List.length field_tys)
+        (map (fun ty => WScalarOut ty (im_trait im)) (dedup field_tys))
+  | XMulAssignLike, Some _ =>
+      add_where_clauses_for_new_ident g (List.length field_tys)
+        (map (fun ty => WScalar ty (im_trait im)) (dedup field_tys))
+  | XSumLike, _ =>
+      if has_type_param g then
+        {| h_params := add_extra_ty_param_bound ps (BWith (im_trait im));
+           h_where := add_extra_where_clauses (map WOrig (g_where g))
+                        [WSelfOp (if str_eqb (im_trait im) (lit "Sum") then lit "Add" else lit "Mul")] |}
+      else plain ps
+  end.
+
+Definition derive_header (lower : str -> str) (t : trait) (g : generics) (inp : input) : outcome header :=
+  omap (header_of t g inp) (derive lower t inp).
 
 (** /repo/src/ops.rs:23 and /repo/src/add.rs:23-30: Display of the two error structs *)
 Definition unit_error_display (opname : str) : str := lit "Cannot " ++ opname ++ lit "() unit variants".
